@@ -13,6 +13,7 @@ CONSTANTS
   Weak_ReplacementHashUnchecked = FALSE
   Weak_PromotedWitnessStays = FALSE
   Weak_PartialTraceOnBenignError = FALSE
+  Weak_LaggingWitnessEqualTimeBenign = FALSE
   Weak_DivergentHeaderExaminedOncePerRun = FALSE
 INIT CaseInit
 NEXT CaseNext
